@@ -10,6 +10,14 @@ NOTE = ("Trusted base: go/types (type checking and constant evaluation), golang.
         "The check decides the named structural clauses only; the value-level remainder listed in the evidence under not_covered is not claimed.")
 
 CLAIMED = {
+ "C04": dict(level="other",
+   technique="static analysis: writer/reader lexical agreement rules over the XML/JSON codecs (parse-call base/width dataflow, forbidden Go-quoting in the JSON writer, unit-of-duration and separator/layout sibling checks)",
+   text="Decides the structural part of XML/JSON interchangeability: for every parse call of the text readers, a hexadecimal spelling is read with a parser that covers every bit pattern the writers can emit for that width, a 0x prefix is followed by a base-16 parse, durations are seconds times time.Second on every return, mask separators and date layouts written are the ones read, enum/mask lookups default the tag identically on both sides, and the JSON writer never uses Go-syntax quoting (strings go through encoding/json; raw names are registry names proven safe by C17.N3). Four defects found this way are repaired and guarded. Byte-identity of the binary re-encoding and reproduction of foreign XML need execution and are not claimed.",
+   ref="§4 C04"),
+ "C18": dict(level="other",
+   technique="static analysis: range abstraction of every narrowing conversion in the text readers (bit size of the parse or dominating bounds check) against the writers' total domain; writer-panic preconditions",
+   text="Decides `whatever a reader can return, every writer can take`: every conversion of a parsed number to a narrower type or to a duration in the XML/JSON readers is justified by the bit size of its parse call or by a dominating bounds check inside the writers' domain (intervals in [0,2^32) s, 32-bit integers and enumerations), every explicit panic of a writer has a precondition those ranges (or C01.P5) establish, and the alternative lexical forms accepted on input land in the canonical domain. This is a necessary condition for re-encodability of accepted input; byte-equality of the second re-encoding is value-level and not decided.",
+   ref="§4 C18"),
  "C03": dict(level="other",
    technique="static analysis: constant tables of the binary writer against a hand-written specification table; byte-count abstract domain over the value closures; call-order and value-identity checks of the header writer and the length back-patch; must-pass-through of the sign-bit test in bigIntToBytes",
    text="Decides the structural clauses of wire-format conformance for every item the writer can emit: the ten type codes/names equal KMIP 1.4 9.1.1 and the reader accepts exactly them; each fixed-width writer declares the specified length and appends exactly 8 value+padding bytes; string writers declare len(value) and right-pad with padForLen(len,8) zero bytes; big integers are written with the sign padding inside the declared length at a multiple of 8; the header is tag(3 big-endian bytes), type, length in that order and the structure length is back-patched at the placeholder with len(after)-offset-4; reader and writer agree on fixed lengths; and the sign-word decision examines the top bit for both signs. The arithmetic inside padForLen/bigIntToBytes and agreement with an independent parser over the value space need an executable oracle and are not claimed.",
